@@ -24,9 +24,10 @@ from ..lib import impl, loaders, tokens as T, refgrammar as R
 LEVEL = "exploration"
 
 WS = [" ", "\t", "\n", "\r\n", "\f", "\v", "  \n  ", " \t ", "\n\n\n"]
-COMMENTS = ["/* c */", " /* c */ ", "/**/", "/* a\n b */", " /* = , ( \" */\n", "/* END */ ", "/* c *//* d */"]
+COMMENTS = ["/* c */", " /* c */ ", "/**/", "/* a\n b */", " /* = , ( \" */\n", "/* END */ ", "/* c *//* d */",
+            "/* item #3\n next line */", " /* it's <m ; } */ ", "/* * / ** */"]
 HASH = [" # c\n", "\n# c = (\n", " #\n", "\t# END\n  "]
-CORE = [" ", "\n", "\r\n", "\t", "/* c */", " /* x = ( */\n", "\f"]
+CORE = [" ", "\n", "\r\n", "\t", "/* c */", " /* x = ( #\n' */\n", "\f"]
 OPTIONAL_KINDS = ("EQ", "COMMA", "LP", "RP", "LB", "RB", "SEMI")
 
 
